@@ -180,6 +180,8 @@ def _numeric_names(fi):
                 if isinstance(e, ast.Name):
                     out.add(e.id)
         elif isinstance(n, ast.BinOp) and isinstance(n.op, (ast.Add, ast.Sub, ast.Mult, ast.Div)):
+            if any(isinstance(e, ast.JoinedStr) or (isinstance(e, ast.Constant) and isinstance(e.value, (str, bytes))) or isinstance(e, (ast.List, ast.Tuple)) for e in (n.left, n.right)):
+                continue        # string / sequence concatenation, not arithmetic
             for e in (n.left, n.right):
                 if isinstance(e, ast.Name):
                     out.add(e.id)
@@ -219,6 +221,78 @@ def numeric_truthiness_rule(index, rep, rid, modules, exempt=None):
                               "%s tests `%s` by truthiness (`%s`) although it uses it as a number: a value of 0 (a zero-length branch or period, offset 0, a zero edge length) is then handled as if nothing had been given" % (fi.qualname, t.ast.id, norm_stmt(t.stmt)[:60]))
             n += len(nn)
     return n
+
+
+NUMERIC_ATTRS = {"age": "a node age", "length": "an edge length", "edge_length": "an edge length", "root_distance": "a distance from the root", "weight": "a tree weight"}
+_SAME_FALSY = (0, 0.0, "", None, False)
+
+
+def _in_test_position(fi, node):
+    """is `node` (a BoolOp) evaluated only for its truth value?"""
+    par = parent_map(fi.node)
+    cur = node
+    while True:
+        p_ = par.get(cur)
+        if p_ is None:
+            return False
+        if isinstance(p_, (ast.If, ast.While, ast.IfExp, ast.Assert)) and p_.test is cur:
+            return True
+        if isinstance(p_, ast.comprehension) and cur in p_.ifs:
+            return True
+        if isinstance(p_, ast.UnaryOp) and isinstance(p_.op, ast.Not):
+            return True
+        if isinstance(p_, ast.BoolOp):
+            cur = p_
+            continue
+        return False
+
+
+def zero_is_a_value_rule(index, rep, rid, modules, exempt=None):
+    """0 / 0.0 / False are values, not 'nothing given': (a) a name used as a number is not tested by truthiness;
+    (b) an attribute that holds a number of the data model (age, length, weight ...) is not tested by truthiness;
+    (c) `x or <default>` used as a value does not replace a number or a tri-state option that was given as 0 / False."""
+    n = numeric_truthiness_rule(index, rep, rid, modules, exempt=exempt)
+    for m in modules:
+        for fi in index.functions_in_module(m):
+            g = cfg_of(fi)
+            for t in g.nodes:
+                if t.kind == "test" and isinstance(t.ast, ast.Attribute) and t.ast.attr in NUMERIC_ATTRS:
+                    n += 1
+                    rep.check(False, rid, fi.qualname, "`%s` tested by truthiness" % _canon_names(norm(t.ast), fi), fn_where(fi, t.stmt), "",
+                              "%s tests `%s` (%s) by truthiness in `%s`: a value of exactly 0 - a root age of 0.0, a zero-length branch, a weight of 0 - is handled as if it were missing" % (fi.qualname, norm(t.ast), NUMERIC_ATTRS[t.ast.attr], norm_stmt(t.stmt)[:60]))
+            nn = None
+            defaults = None
+            for b in walk_no_nested(fi.node):
+                if not (isinstance(b, ast.BoolOp) and isinstance(b.op, ast.Or) and len(b.values) == 2):
+                    continue
+                x, d = b.values
+                if not isinstance(x, (ast.Name, ast.Attribute, ast.Subscript)):
+                    continue
+                if isinstance(d, ast.Constant) and any(d.value is v or (type(d.value) is type(v) and d.value == v) for v in _SAME_FALSY):
+                    continue        # a falsy value is replaced by the same kind of 'nothing'
+                if isinstance(d, (ast.List, ast.Tuple, ast.Dict, ast.Set)) and not (getattr(d, "elts", None) or getattr(d, "keys", None)):
+                    continue
+                if _in_test_position(fi, b):
+                    continue
+                n += 1
+                if nn is None:
+                    nn = _numeric_names(fi)
+                    a_ = fi.node.args
+                    pos = a_.posonlyargs + a_.args
+                    defaults = dict(zip([p_.arg for p_ in pos][len(pos) - len(a_.defaults):], a_.defaults))
+                    defaults.update({k.arg: v for k, v in zip(a_.kwonlyargs, a_.kw_defaults) if v is not None})
+                numeric = (isinstance(d, ast.Constant) and isinstance(d.value, (int, float)) and not isinstance(d.value, bool)) or (isinstance(x, ast.Name) and x.id in nn) or (isinstance(x, ast.Attribute) and x.attr in NUMERIC_ATTRS)
+                tri = isinstance(x, ast.Name) and x.id in defaults and is_none(defaults[x.id]) and isinstance(d, ast.Attribute) and d.attr.lstrip("_") == x.id.lstrip("_")
+                if numeric or tri:
+                    rep.check(False, rid, fi.qualname, "`%s` replaces a given %s" % (_canon_names(norm(b), fi), "0" if numeric else "False"), fn_where(fi, b), "",
+                              "%s computes `%s`: %s" % (fi.qualname, norm(b)[:70],
+                                                       "a value of 0 (a weight of 0 that switches a column off, a zero length or offset) is silently replaced by the default" if numeric else
+                                                       "the option defaults to None meaning 'use the object's setting', so an explicit False is indistinguishable from None here and the object's setting wins over what the caller asked for"))
+    return n
+
+
+def _canon_names(text, fi):
+    return text
 
 
 def arg_wiring_rule(index, rep, rid, modules):
@@ -741,6 +815,11 @@ def guard_object_rule(index, rep, rid, modules):
     return n
 
 
+NUMERIC_EXEMPT = {
+    "dendropy.model.coalescent.discrete_time_to_coalescence:pop_size": "documented: a population size of 0 or None both mean 'time in population units'",
+}
+
+
 def generic_rules(prop, index, rep):
     """rules of the same shape for every property, applied to the modules the property is anchored in"""
     mods = [m for m in PROP_MODULES.get(prop, []) if m in index.modules or index.module(m)]
@@ -750,6 +829,11 @@ def generic_rules(prop, index, rep):
         nw = arg_wiring_rule(index, rep, rid, mods)
         rep.ob(rid, "src/dendropy", "%d resolved calls in the property's modules examined" % nw, True)
         rep.floor(rid, "resolved calls in the property's modules", 50, nw)
+    rid3 = "R%s.N" % prop[1:]
+    rep.rule(rid3, "zero and False are values: in the property's modules a number (a name used in arithmetic or ordered comparisons, a node age / edge length / weight attribute) is never tested by truthiness, and `x or default` never stands in for a number or a None-defaulted option")
+    with rep.section(rid3):
+        nz = zero_is_a_value_rule(index, rep, rid3, mods, exempt=NUMERIC_EXEMPT)
+        rep.ob(rid3, "src/dendropy", "%d numeric names, numeric attributes tests and value-position `or` defaults examined" % nz, True, nontrivial=nz > 0)
     rid2 = "R%s.V" % prop[1:]
     rep.rule(rid2, "right variable in nested loops: an inner loop over a collection derived from the outer item uses its own item")
     with rep.section(rid2):
